@@ -1,5 +1,6 @@
 import AcraModel.Envelope.ContainerLemmas
 import AcraModel.Envelope.BlockLemmas
+import AcraModel.Envelope.StructLemmas
 /-!
 Lemmas about the registry handler's `protect` / `reveal` (C01): what a successful `protect` that did
 not pass its input through has computed, and how `reveal` takes a serialized container apart.
@@ -87,5 +88,41 @@ theorem c01_protect_block_facts (c : CryptoOps) (hs : SealLaws c) (kvW kvR : Key
   have hd := c01_decryptBlock_build c hs key [] _ m encKey encData _ _ pre post hkid (hEncKey _ h2) h1 h2
     (fun k' hk' hid => hpre k' hk' encKey h2 hid)
   exact ⟨_, rfl, hne', by omega, by simp [matchKind, hx, Out.isOk], c01_decryptKind_block c kvR _ m _ hx hR hd⟩
+
+theorem c01_encryptKind_struct {c : CryptoOps} {kv : KeyView} {m rnd e : Bytes}
+    (he : encryptKind c kv .struct m rnd = .ok e) (hnm : matchKind .struct m = false) :
+    ∃ pub, kv.pub = some pub ∧ createStruct c pub [] m rnd = .ok e := by
+  unfold encryptKind at he
+  rw [hnm] at he
+  simp only [Bool.false_eq_true, if_false] at he
+  cases hs : kv.pub with
+  | none => rw [hs] at he; cases he
+  | some pub => rw [hs] at he; exact ⟨pub, rfl, he⟩
+
+/-- the struct handler on a valid AcraStruct -/
+theorem c01_decryptKind_struct (c : CryptoOps) (kv : KeyView) (s m : Bytes) (ps : List Bytes)
+    (hv : validateStruct s = .ok ()) (hps : kv.privs = some ps)
+    (hd : decryptStructRotated c [] s ps = .ok m) : decryptKind c kv .struct s = .ok m := by
+  unfold decryptKind
+  simp only [hv, hps, hd]
+
+/-- everything `reveal` and the column processor need to know about a value protected as AcraStruct -/
+theorem c01_protect_struct_facts (c : CryptoOps) (hs : SealLaws c) (hsl : SealLen c) (hm : MsgLaws c) (hml : MsgLen c)
+    (hk : KeygenLaws c) (kvW kvR : KeyView) (priv m rnd p : Bytes) (pre post : List Bytes)
+    (hpriv : c.validPriv priv = true)
+    (hW : kvW.pub = some (c.pubOf priv)) (hR : kvR.privs = some (pre ++ priv :: post))
+    (hpre : ∀ k' ∈ pre, ∀ s, createStruct c (c.pubOf priv) [] m rnd = .ok s →
+      decryptStruct c k' [] s = .err ∨ decryptStruct c k' [] s = .ok m)
+    (hnm : matchKind .struct m = false) (hnr : registryMatch m = false)
+    (hp : protect c kvW .struct m rnd = .ok p) :
+    ∃ e, p = serBytes e Kind.struct.id ∧ e ≠ [] ∧ e.length = m.length + 189 ∧ m.length < 2^32 ∧
+      matchKind .struct e = true ∧ decryptKind c kvR .struct e = .ok m := by
+  obtain ⟨e, he, hne', rfl⟩ := c01_protect_ok hp hnm hnr
+  obtain ⟨pub, hpub, hcs⟩ := c01_encryptKind_struct he hnm
+  rw [hW] at hpub; cases hpub
+  obtain ⟨hval, _, hd, hlen, hmlen⟩ := c01_struct_roundtrip c hs hsl hm hml hk priv [] m rnd e hpriv hcs
+  refine ⟨e, rfl, hne', hlen, hmlen, by simp [matchKind, hval], ?_⟩
+  exact c01_decryptKind_struct c kvR e m _ hval hR
+    (c01_decryptStructRotated_found c [] e priv m pre post (fun k' hk' => hpre k' hk' e hcs) hd)
 
 end AcraModel.Envelope
